@@ -1,19 +1,11 @@
 /- driver commands for the decoder model (instances keep their state between lines) -/
 import N2k.Driver.Pgn
 import N2k.Model.Decoder
+import N2k.Model.Layer
 namespace N2k.Driver
 open N2k N2k.Dec
 
-def genLayer : GenLayer where
-  isFast := fun pgn =>
-    match (Gen.fasts.filter (·.pgn = pgn)).getLast? with
-    | some e => (match e.fast with | some true => .fast | some false => .single | none => .raises)
-    | none => .unknown
-  decode := fun pgn data =>
-    match decodePgn genEnv Gen.decFns Gen.disps pgn data with
-    | none => some .none
-    | some (.ok m) => some (.ok m)
-    | some (.error _) => some .raised
+def genLayer : GenLayer := mkLayer genEnv Gen.decFns Gen.disps Gen.fasts
 
 def parseRef? (s : String) : Option PgnRef :=
   match s.toList with
